@@ -579,6 +579,23 @@ func differentValue(r *rand.Rand, st *seriesState, s sampleSpec) sampleSpec {
 
 func breakHistogram(r *rand.Rand, s sampleSpec) sampleSpec {
 	s.bad = true
+	if r.IntN(3) == 0 {
+		// a schema of the reserved range below the valid ones (-9..-5): known to the format, not
+		// storable, and - unlike the reserved range above - not reducible to a valid resolution
+		sch := int32(-5 - r.IntN(5))
+		if s.kind == "h" && s.h.Schema != histogram.CustomBucketsSchema {
+			h := s.h.Copy()
+			h.Schema = sch
+			s.h = h
+			return s
+		}
+		if s.kind != "h" && s.fh.Schema != histogram.CustomBucketsSchema {
+			fh := s.fh.Copy()
+			fh.Schema = sch
+			s.fh = fh
+			return s
+		}
+	}
 	if s.kind == "h" {
 		h := s.h.Copy()
 		if r.IntN(2) == 0 || math.IsNaN(h.Sum) {
